@@ -34,7 +34,9 @@ var Check = &ev.Check{
 		"Oracle: the multiset of diagnostics reduced to (file, quoted names) equals ref/breakref's; exit status non-zero iff non-empty; identical across orders. Cases are distinct (base, script) pairs; non-trivial = scripts containing at least one breaking edit.",
 	Prepare: prepare,
 	Run:     run,
-	Budget:  func(t string) time.Duration { return map[string]time.Duration{"quick": 4 * time.Minute, "thorough": 25 * time.Minute}[t] },
+	Budget: func(t string) time.Duration {
+		return map[string]time.Duration{"quick": 4 * time.Minute, "thorough": 25 * time.Minute}[t]
+	},
 	Assumptions: []string{
 		"renames detected by go-git's similarity heuristic, merge commits and scripts longer than 2 edits are out of reach",
 		"wording of diagnostics is ignored; only the file and the quoted identifiers are compared",
